@@ -64,6 +64,45 @@ def exercise_lines(rng, keys, seps, ri):
     return L
 
 
+def sparse_bigblock(ctx, b):
+    """A foreign v2 file with one data block above 4 GiB (values in the holes of a sparse file, a restart point at every entry:
+    64-bit restart array with offsets >= 2^32), read by the real reader: seeks and lookups whose binary search lands on those
+    restart points. Quick: the huge values are not read (only one of them once); thorough: checksums verified, full iteration."""
+    from .. import projection as P
+    wd = ctx.sub("sparse")
+    path = os.path.join(wd, "big.mtbl")
+    ents, restarts = R.write_sparse_bigblock(path)
+
+    def vrec(v):
+        if isinstance(v, int):
+            h = "%016x" % R.fnv64_zeros(v)
+            return [-1, v] + [int(h[i:i + 4], 16) for i in range(0, 16, 4)]
+        return P.vrec(v)
+    mk = {"e": "MkTable", "path": path, "ents": [{"k": list(k), "v": vrec(v)} for k, v in ents]}
+    hx = shapes.hexs
+    L = ["scratch " + wd, "r_init 0 %s %d 0" % (path, 0 if ctx.quick() else 1)]
+    L += ["it_iter 1 r:0", "it_seek 1 %s" % hx(b"c"), "it_drain 1", "it_seek 1 %s" % hx(b"cc"), "it_next 1 2", "it_seek 1 %s" % hx(b"dd"), "it_next 1 2",
+          "it_seek 1 %s" % hx(b"b2"), "it_next 1 2", "it_seek 1 %s" % hx(b"d"), "it_next 1 1", "it_destroy 1"]
+    for bd in (("get", b"c", b""), ("get", b"d", b""), ("get", b"dd", b""), ("get", b"cc", b""), ("prefix", b"d", b""), ("range", b"c", b"d"), ("range", b"bz", b"zz")):
+        L += [gen.open_line(1, "r:0", bd), "it_drain 1", "it_destroy 1"]
+    if not ctx.quick():
+        L += ["it_iter 1 r:0", "it_drain 1", "it_destroy 1"]
+    L.append("r_destroy 0")
+    evs, rc, err = core.run_drv(b, "\n".join(L) + "\n", wd, "big", timeout=1800)
+    ctx.cov["sparse_block_above_4GiB"] = {"restart_offsets": restarts, "entries": len(ents)}
+    try:
+        os.unlink(path)
+    except OSError:
+        pass
+    if rc != 0:
+        core.report(ctx, "real reader ended abnormally (rc=%s) on the sparse file with a block above 4 GiB: %s" % (rc, err[-1500:]), {"kind": "script", "script": L, "stderr": err[-3000:]})
+        return
+    recs = [{"e": "Reset", "x": 0}, mk] + [e for e in core.convert_events(evs) if e["e"] != "Reset"]
+    for ex, line in core.validate_batch(ctx, recs, "sparsebig"):
+        core.report(ctx, "real reader disagrees with the encoded entries of the block above 4 GiB at trace line %d: %s" % (line, json.dumps(ex[line - 1])[:300]),
+                    {"kind": "trace", "trace": ex, "line": line})
+
+
 def run(ctx):
     b = build.build("asan")
     rng = ctx.rng
@@ -138,8 +177,9 @@ def run(ctx):
                 os.unlink(st["_path"])
             except OSError:
                 pass
+    sparse_bigblock(ctx, b)
     if ctx.quick():
-        ctx.notes.append("the > 4 GiB block branch (64-bit restart array) is exercised in the thorough tier only (needs ~11 GiB of memory)")
+        ctx.notes.append("block_builder on a block above 4 GiB is exercised in the thorough tier only (needs ~11 GiB of memory); the reader side is exercised on a sparse file")
     else:
         import subprocess
         prog = build.compile_prog("plain", "bigblock", ["bigblock.c", "seams_pass.c"])
